@@ -214,6 +214,26 @@ class _FnAnalysis:
             return Val(out.V, out.S, dict(kws))
         if cn in ('isinstance',):
             return scalar(args[0].S) if args else Val()
+        # library calls that write into one of their arguments: out=<param>, np.copyto(<param>, ..), <param>.sort() ...
+        written = [k.value for k in n.keywords if k.arg == 'out']
+        if cn in ('np.copyto', 'np.put', 'np.place', 'np.putmask', 'np.fill_diagonal', 'np.random.shuffle') and n.args:
+            written.append(n.args[0])
+        if isinstance(n.func, ast.Attribute) and n.func.attr in ('sort', 'fill', 'resize', 'itemset', 'partition', 'byteswap', 'setfield', 'put') \
+                and not cn.startswith(('np.', 'numba.')):
+            written.append(n.func.value)
+        for wn in written:
+            for e in (wn.elts if isinstance(wn, (ast.Tuple, ast.List)) else [wn]):
+                b = e
+                while isinstance(b, ast.Subscript):
+                    b = b.value
+                if isinstance(b, ast.Name) and b.id in self.params:
+                    self.sites.setdefault(b.id, set()).add((self.rel, self.fn.name, getattr(n, 'lineno', 0), unparse(n)[:80]))
+                if isinstance(b, ast.Name):
+                    cur = self.env.get(b.id, Val())
+                    addv = Val()
+                    for a in list(args) + list(kws.values()):
+                        addv = addv.join(Val(a.V, a.S))
+                    self.env[b.id] = Val(cur.V | addv.V | self.cur_ctrl, cur.S, cur.keys)
         target = self.flow.resolver(n, self.rel)
         if target is not None:
             s = self.flow.summary(*target)
